@@ -101,6 +101,16 @@ def real_outputs(inp):
         except Exception as e:
             ways.append(('feed-' + label, e))
     try:
+        import copy
+        p0 = mido.Parser()
+        p = copy.deepcopy(p0)                     # a forked parser is a parser of its own
+        p.feed(inp)
+        ways.append(('feed-into-deepcopy', list(p)))
+        if p0.pending() or list(p0):
+            ways.append(('feed-into-deepcopy', ValueError('the original parser received the messages of its copy')))
+    except Exception as e:
+        ways.append(('feed-into-deepcopy', e))
+    try:
         r = mido.parse(inp)
         ways.append(('parse', [] if r is None else [r]))
     except Exception as e:
